@@ -677,7 +677,12 @@ class QvmCpu:
 
         base_idx = array_ref.index
 
-        array_n_dims = array_ref.segment.get_cell(base_idx + 1).value
+        array_n_dims = array_ref.segment.get_cell(base_idx + 1)
+        if array_n_dims is None:
+            self.trap(
+                TrapCode.UNINITIALIZED_MEM,
+                msg='Array memory is uninitialized')
+        array_n_dims = array_n_dims.value
         if array_n_dims != n_indices:
             self.trap(TrapCode.INVALID_DIMENSIONS,
                       expected=array_n_dims,
